@@ -8,7 +8,8 @@ open Primaite Primaite.Agents
     prob    <ins|key> nActions uNum uDen k:w,k:w,…                          → chose <i> | raised
     t1-init start freq var rkc rst pPn pPd pCn pCd pYn pYd attempts repeatScan nAddr exfil corrupt cont d0
     t1-step t d1 d2 uN uD dScan ok hostsEmpty containsTarget hasPg          → <kind> <host> <tgt> | <cur> <nxt> <prog> <concluded> <nextExec>
-    t3-init start freq var rkc rst pPn pPd pAn pAd pMn pMd startNode accts acls creds d0
+    rand    nActions k                                                      → chose <k> | raised
+    t3-init start freq var rkc rst pPn pPd pAn pAd pMn pMd pEn pEd startNode accts acls creds d0
     t3-step t d1 uN uD ok hasReason hasLoginData                            → <kind> <host> | <cur> <nxt> <prog> <concluded> <nextExec>
 -/
 
@@ -75,9 +76,9 @@ def mkCfg1 (start f v rkc rst ppn ppd pcn pcd pyn pyd att rsc na ex co cont : In
     pPropagate := ⟨ppn, ppd.toNat⟩, pC2 := ⟨pcn, pcd.toNat⟩, pPayload := ⟨pyn, pyd.toNat⟩, scanAttempts := att.toNat,
     repeatScan := tb rsc, nAddr := na.toNat, exfiltrate := tb ex, corrupt := tb co, continueOnFailedExfil := tb cont }
 
-def mkCfg3 (start f v rkc rst ppn ppd pan pad pmn pmd sn : Int) (accts acls : List Nat) (creds : List (Nat × Nat)) : Tap3.Cfg :=
+def mkCfg3 (start f v rkc rst ppn ppd pan pad pmn pmd pen ped sn : Int) (accts acls : List Nat) (creds : List (Nat × Nat)) : Tap3.Cfg :=
   { startStep := start, frequency := f, variance := v, repeatKillChain := tb rkc, repeatStages := tb rst,
-    pPlanning := ⟨ppn, ppd.toNat⟩, pAccess := ⟨pan, pad.toNat⟩, pManipulation := ⟨pmn, pmd.toNat⟩, pExploit := ⟨1, 1⟩,
+    pPlanning := ⟨ppn, ppd.toNat⟩, pAccess := ⟨pan, pad.toNat⟩, pManipulation := ⟨pmn, pmd.toNat⟩, pExploit := ⟨pen, ped.toNat⟩,
     startNode := sn.toNat, accountChanges := accts, acls := acls, creds0 := creds.map fun (h, ip) => (h, ip ≠ 0) }
 
 def step (st : DState) : List String → DState × String
@@ -124,10 +125,17 @@ def step (st : DState) : List String → DState × String
       | .act a => ({ st with s1 := some s' }, s!"{showAct1 a} | {showSt1 s'}")
       | .raised => ({ st with s1 := some s' }, "raised")
     | _, _, _ => (st, "bad-op")
-  | ["t3-init", start, f, v, rkc, rst, ppn, ppd, pan, pad, pmn, pmd, sn, accts, acls, creds, d0] =>
-    match ints [start, f, v, rkc, rst, ppn, ppd, pan, pad, pmn, pmd, sn, d0], csvNat accts, csvNat acls, csvPairs creds with
-    | some [start, f, v, rkc, rst, ppn, ppd, pan, pad, pmn, pmd, sn, d0], some accts, some acls, some creds =>
-      let cfg := mkCfg3 start f v rkc rst ppn ppd pan pad pmn pmd sn accts acls creds
+  | ["rand", n, k] =>
+    match n.toNat?, k.toNat? with
+    | some n, some k =>
+      match randomAgentChoice n k with
+      | .chose i => (st, s!"chose {i}")
+      | .raised => (st, "raised")
+    | _, _ => (st, "bad-op")
+  | ["t3-init", start, f, v, rkc, rst, ppn, ppd, pan, pad, pmn, pmd, pen, ped, sn, accts, acls, creds, d0] =>
+    match ints [start, f, v, rkc, rst, ppn, ppd, pan, pad, pmn, pmd, pen, ped, sn, d0], csvNat accts, csvNat acls, csvPairs creds with
+    | some [start, f, v, rkc, rst, ppn, ppd, pan, pad, pmn, pmd, pen, ped, sn, d0], some accts, some acls, some creds =>
+      let cfg := mkCfg3 start f v rkc rst ppn ppd pan pad pmn pmd pen ped sn accts acls creds
       match Tap3.init cfg d0 with
       | some s => ({ st with c3 := some cfg, s3 := some s }, s!"ok {showSt3 s}")
       | none => ({ st with c3 := none, s3 := none }, "raised")
